@@ -198,10 +198,21 @@ class Exec:
             return {}
         if k == "pose":
             e = self._slot(op["s"])
-            T = deliver(op["pose"], op.get("how"))
+            if op.get("how") == "reuse":
+                # this collider's own slot of the caller's pose stack, refilled in place and handed over again
+                if "buf" not in e:
+                    e["stack"] = np.zeros((3, 4, 4))
+                    e["stack"][:] = np.eye(4)
+                    e["buf"] = e["stack"][1]
+                e["buf"][:] = np.array(op["pose"], dtype=float).reshape(4, 4)
+                T = e["buf"]
+                T2 = e["buf"]
+            else:
+                T = deliver(op["pose"], op.get("how"))
+                T2 = None
             e["obj"].update_pose(T)
             if op.get("dup"):
-                e["obj"].update_pose(deliver(op["pose"], op.get("how")))
+                e["obj"].update_pose(T2 if T2 is not None else deliver(op["pose"], op.get("how")))
             e["pose"] = op["pose"]
             return {}
         if k == "sup":
